@@ -14,7 +14,7 @@ for name in sorted(os.listdir(os.path.join(ROOT, "seeded"))):
     m = json.load(open(mp))
     pid = m.get("breaks_property") or name.split("-")[0]
     title = re.sub(r"^C\d\d\s*/\s*(m|change )\d\s*(\(second round\))?\s*[-—]\s*", "", m.get("title", "")).replace("|", "/")
-    rnd = {"1": 1, "2": 1, "3": 2, "4": 2, "5": 3, "6": 3}.get(name[-1], 4)
+    rnd = {"1": 1, "2": 1, "3": 2, "4": 2, "5": 3, "6": 3}.get(name[-1], 4 if pid in ("C01", "C02") else 5)
     if m.get("neutralised_by"):
         verdict, mech = f"neutralised by fix {m['neutralised_by']}", ""
     else:
